@@ -160,6 +160,30 @@ pub fn write_lib(l: &Logical, api: Api) -> Result<Vec<u8>, String> {
     write_lib_order(l, api, None)
 }
 
+/// the async writer over a slow sink: every call (write, flush, seek, close) answers `Pending` once before it
+/// completes, and a write takes at most `max` bytes - so every future inside the writer is polled more than once and
+/// resumes in the middle of its work
+pub fn write_lib_async_slow(l: &Logical, max: usize) -> Result<Vec<u8>, String> {
+    use crate::env::{Handle, Uniform};
+    let r = catch(|| -> Result<Vec<u8>, String> {
+        let mut pm = PMTiles::new_async(TileType::Unknown, Compression::Unknown);
+        apply_settings(&mut pm, l);
+        for (id, c) in l.tiles.iter() {
+            pm.add_tile(*id, c.clone()).map_err(|e| format!("add_tile({id}): {e}"))?;
+        }
+        // honest cost: a few seeks plus (bytes / max) writes, each polled twice; anything far beyond is a writer that
+        // restarts its work when polled again (reported as the failure it then runs into)
+        let approx: usize = l.tiles.values().map(Vec::len).sum::<usize>() + 40 * l.tiles.len() + 80_000;
+        let h = Handle::new(Vec::new(), Box::new(Uniform { max, pending_each: 1 })).budget(40 * (approx / max.max(1)) + 20_000, 4 * approx + (1 << 20));
+        block_on(pm.to_async_writer(&mut h.asyn())).map_err(|e| format!("to_async_writer: {e}"))?;
+        Ok(h.data())
+    });
+    match r {
+        Ok(x) => x,
+        Err(p) => Err(format!("PANIC {p}")),
+    }
+}
+
 /// An edit of an opened archive: new settings (None = keep), new metadata (None = keep; `Some` of an equal
 /// map is an assignment that changes nothing), tiles removed, tiles added (in this order)
 #[derive(Debug, Clone, Default)]
